@@ -31,6 +31,9 @@ type built struct {
 	rel     int
 	fromTo  bool // true: the request starts at the holder side and reaches the related side
 	dropKey string
+	// idSet: the top-level selection carries a docID argument naming these ids (nil: none)
+	idSet  map[string]bool
+	idList bool
 }
 
 func posOp(op string) bool {
@@ -90,7 +93,70 @@ func dirOf(desc bool) string {
 	return "ASC"
 }
 
+// build renders the request(s) of q and, when q names documents by docID, restricts the
+// top-level selection to them: the model answer is the unrestricted answer restricted to those ids.
 func (w *world) build(q Query) []built {
+	bs := w.buildPlain(q)
+	if q.IDMode == 0 || len(q.IDs) == 0 {
+		return bs
+	}
+	for i := range bs {
+		b := &bs[i]
+		if b.scalar || !strings.HasPrefix(b.root, "T") {
+			continue
+		}
+		col, err := strconv.Atoi(b.root[1:])
+		if err != nil || col >= len(w.docs) {
+			continue
+		}
+		all := w.docs[col]
+		var ids []string
+		seen := map[string]bool{}
+		for _, sel := range q.IDs {
+			id := danglingID
+			if k := sel % (len(all) + 1); k < len(all) {
+				id = all[k].id
+			}
+			if !seen[id] {
+				seen[id] = true
+				ids = append(ids, id)
+			}
+			if q.IDMode == 1 {
+				break
+			}
+		}
+		arg := strconv.Quote(ids[0])
+		if q.IDMode == 2 {
+			quoted := make([]string, len(ids))
+			for j, id := range ids {
+				quoted[j] = strconv.Quote(id)
+			}
+			arg = "[" + strings.Join(quoted, ", ") + "]"
+		}
+		withArgs, bare := "{ "+b.root+"(", "{ "+b.root+" {"
+		switch {
+		case strings.HasPrefix(b.body, withArgs):
+			b.body = withArgs + "docID: " + arg + ", " + b.body[len(withArgs):]
+		case strings.HasPrefix(b.body, bare):
+			b.body = "{ " + b.root + "(docID: " + arg + ") {" + b.body[len(bare):]
+		default:
+			hx.Harnessf("cannot add a docID argument to %s", b.body)
+		}
+		b.idSet, b.idList = seen, q.IDMode == 2
+		if b.hasWant {
+			kept := []any{}
+			for _, row := range b.want {
+				if id, _ := dig(row, "_docID").(string); seen[id] {
+					kept = append(kept, row)
+				}
+			}
+			b.want = kept
+		}
+	}
+	return bs
+}
+
+func (w *world) buildPlain(q Query) []built {
 	k := q.Rel % len(w.tp.Rels)
 	r := w.tp.Rels[k]
 	H, T := colName(r.From), colName(r.To)
@@ -660,6 +726,15 @@ func (w *world) query(qi int, q Query) *hx.Failure {
 	for _, b := range w.build(q) {
 		w.o.queries++
 		w.o.label("q:" + b.class)
+		idLabel := ""
+		if b.idSet != nil {
+			idLabel = "docid-single"
+			if b.idList {
+				idLabel = "docid-list"
+			}
+			w.o.label(idLabel)
+			w.o.label(idLabel + ":" + b.class)
+		}
 		var plan planInfo
 		if w.twin != nil && b.invertible {
 			var ok bool
@@ -684,6 +759,9 @@ func (w *world) query(qi int, q Query) *hx.Failure {
 			if plan.invertedByOrder {
 				w.o.inverted++
 				w.o.label("plan:inverted-by-order:" + b.class)
+			}
+			if idLabel != "" && plan.inverted() {
+				w.o.label(idLabel + "+inverted-join")
 			}
 		}
 		var got [][]any
